@@ -148,16 +148,22 @@ def pairVerdict (sc : Scene R) (safety : Safety R) (i j : Nat) : Bool :=
 def offsetCandidates (initial f t : J6 R) : List (Nat × J6 R) :=
   (List.range 6).flatMap (fun k => [(k, initial.set k (f.get k)), (k, initial.set k (t.get k))])
 
-/-- `non_colliding_offsets`; `sceneAt` is the placed scene for a joint vector -/
-def nonCollidingOffsets (sceneAt : J6 R → Scene R) (own : Safety R) (cons : Option (Constraints R))
-    (initial f t : J6 R) (choice : List (Nat × Nat) → Option (Nat × Nat)) : List (J6 R) :=
+/-- the links the collision check of candidate `(k, c)` may skip: those before the tweaked joint whose pose is the
+same as in the initial configuration (`unchanged c i`; for an OPW robot all of `0..k-1`, with coupled joints fewer) -/
+def skipOf (unchanged : J6 R → Nat → Bool) (k : Nat) (c : J6 R) : List Nat :=
+  (List.range k).filter (unchanged c)
+
+/-- `non_colliding_offsets`; `sceneAt` is the placed scene for a joint vector, `unchanged c i` says that link `i` has
+the same pose at `c` as at the initial vector -/
+def nonCollidingOffsets (sceneAt : J6 R → Scene R) (unchanged : J6 R → Nat → Bool) (own : Safety R)
+    (cons : Option (Constraints R)) (initial f t : J6 R) (choice : List (Nat × Nat) → Option (Nat × Nat)) : List (J6 R) :=
   (offsetCandidates initial f t).filterMap (fun (k, c) =>
     let compliant := match cons with
       | some cc => cc.compliant c
       | none => true
     if !compliant then none
     else if own.mode == .noCheck then some c   -- collision checks are disabled completely (as in `collides`)
-    else if (detect (sceneAt c) own own (some .firstCollisionOnly) (List.range k) choice).isEmpty then some c
+    else if (detect (sceneAt c) own own (some .firstCollisionOnly) (skipOf unchanged k c) choice).isEmpty then some c
     else none)
 
 end Opw
